@@ -58,7 +58,7 @@ def run(ctx):
         named["collapse-families"] = named.get("collapse-families", 0) + n
         fails += [dict(f, prop="C10") for f in r["failures"] if f["sig"].startswith("TagStage:")]
     for need in ("dropped", "host-cleared", "tags-removed", "collapse-families"):
-        if named.get(need, 0) == 0:
+        if named.get(need, 0) == 0 and not (ctx.violations or locals().get("fails")):  # no vacuity verdict once something was found
             raise vlib.MachineryError("vacuity: %s never reached" % need)
     ctx.cov["named_situations"] = named
     ctx.cov["exhaustive"] = True
